@@ -26,18 +26,23 @@ theorem C15_driver_row (n : NFA) (S : List Nat) (b : UInt8) :
     (Wire.targetsRow n S)[b.toNat]? = some (targets n S b) := targetsRow_get n S b
 
 /-- **Stepping is deterministic and total; a dead transition is reported, never a wrong state.**
-    For every automaton `n` (in particular `e.toNFA`) and every input `w` the run is a function of `w`, and
+    For every WELL-FORMED automaton `n` (all ids it mentions are state ids — the automata of expressions are,
+    `C15_wf`; the model answers "no edges" for a missing state where the Rust code would panic on the index,
+    so without `WF` the statement would hold by totalisation) and every input `w` the run is a function of `w`, and
     * it is dead (`none`) exactly when no NFA state is reachable reading `w`;
-    * otherwise the DFA state is exactly the set of NFA states reachable reading `w`, in canonical
-      (strictly increasing) form — so two inputs that reach the same NFA states reach the *same* DFA state;
+    * otherwise the DFA state is exactly the set of NFA states reachable reading `w`, every member is a state
+      id (no lookup falls into the panic branch), in canonical (strictly increasing) form — so two inputs that
+      reach the same NFA states reach the *same* DFA state;
     * the run is the iteration of the one-step `transition`. -/
-theorem C15_deterministic_total (n : NFA) (w : List UInt8) :
+theorem C15_deterministic_total (n : NFA) (hwf : WF n) (w : List UInt8) :
     (n.compile.run w = none ↔ ∀ q, ¬ Reach n w q) ∧
-    (∀ S, n.compile.run w = some S → S.Pairwise (· < ·) ∧ ∀ q, q ∈ S ↔ Reach n w q) ∧
+    (∀ S, n.compile.run w = some S →
+      S.Pairwise (· < ·) ∧ (∀ q, q ∈ S ↔ Reach n w q) ∧ ∀ q ∈ S, q < n.states.length) ∧
     (∀ S w' S', n.compile.run w = some S → n.compile.run w' = some S' →
       (∀ q, Reach n w q ↔ Reach n w' q) → S = S') ∧
     (∀ b, n.compile.run (w ++ [b]) = (n.compile.run w).bind fun S => n.compile.transition S b) := by
-  refine ⟨run_eq_none_iff n w, fun S h => ⟨run_sorted n w S h, mem_run n w S h⟩, ?_, ?_⟩
+  refine ⟨run_eq_none_iff n w, fun S h => ⟨run_sorted n w S h, mem_run n w S h, fun q hq => ?_⟩, ?_, ?_⟩
+  · exact reach_lt n hwf ((mem_run n w S h q).mp hq)
   · intro S w' S' h h' hq
     refine sorted_ext (run_sorted n w S h) (run_sorted n w' S' h') (fun q => ?_)
     rw [mem_run n w S h, mem_run n w' S' h', hq]
@@ -48,6 +53,12 @@ theorem C15_deterministic_total (n : NFA) (w : List UInt8) :
     | some S =>
       simp only [DFA.transitionMany, Option.bind_some]
       cases n.compile.transition S b <;> rfl
+
+/-- the automaton of every expression is well formed: start, stop and every edge target are state ids, so
+    neither `compile` nor `epsilon_closure` indexes a missing state -/
+theorem C15_wf (e : Re) : WF e.toNFA := (toNFA_spec e).1
+
+example : WF (Re.opt (Re.seq [.plus (.lit [97]), .lit [98]])).toNFA := C15_wf _
 
 /-- a dead input has no matching extension -/
 theorem C15_dead (e : Re) (w : List UInt8) (h : e.toNFA.compile.run w = none) (v : List UInt8) :
@@ -97,6 +108,73 @@ theorem C15_tags_map (n : NFA) (f : Nat → Nat) (w : List UInt8) (t : Nat) :
   · have h := tagsMap_lang n f w
     rw [← matches_iff_lang, ← matches_iff_lang] at h
     cases h1 : (n.tagsMap f).compile.matches w <;> cases h2 : n.compile.matches w <;> simp_all
+
+/-- **Tags, production shape** (`MatcherAutomata::new`, decoder.rs): the automaton is
+    `choice(matchers.enumerate().map(|(i, m)| match m { Left(n) => n.tags_map(|_| Matcher(i)).tag_stop_state(Matcher(i)),
+    Right(n) => n.tags_map(Item) }))`, with `mk i` for `Matcher(i)` and `it t` for `Item(t)`.  For arbitrary
+    well-formed operands (inner tags allowed) tag `t` is reported after `w` iff some matcher `i` reports it:
+    a `Left` matcher reports `Matcher(i)` exactly when it accepts `w` or one of its own (erased) tags is alive
+    after `w`; a `Right` matcher reports the wrapped tags it reports itself.  The language is the union. -/
+theorem C15_tags_production (mk it : Nat → Nat) (ms : List MatcherNFA) (hwf : ∀ m ∈ ms, WF m.nfa)
+    (w : List UInt8) :
+    (∀ t, t ∈ (matcherAutomaton mk it ms).compile.tagsAfter w ↔
+      ∃ i m, ms[i]? = some m ∧ ReportedD mk it i m w t) ∧
+    ((matcherAutomaton mk it ms).compile.matches w = true ↔ ∃ m ∈ ms, m.nfa.compile.matches w = true) := by
+  constructor
+  · intro t
+    rw [mem_tagsAfter_iff, matcherAutomaton_tagReach mk it ms hwf]
+    simp only [reportedD_iff]
+  · rw [matches_iff_lang, matcherAutomaton_lang mk it ms hwf]
+    simp only [matches_iff_lang]
+
+/-- the production-shaped automata the harness builds through the public API are compared (dump equality,
+    bisimulation) with `Wire.prodNFA`, which is `matcherAutomaton` -/
+theorem C15_driver_prod (ms : List (Bool × Re)) :
+    Wire.prodNFA ms = matcherAutomaton (1000 + ·) id
+      (ms.map fun m => if m.1 then MatcherNFA.parsed m.2.toNFA else MatcherNFA.items m.2.toNFA) := prodNFA_eq ms
+
+/-- the same over expressions, as used by the decoder: parsed matchers with tag-free grammars report
+    `Matcher(i)` exactly on the strings their grammar matches; the item matcher (a choice of tagged literals)
+    reports `Item(t)` for exactly the alternatives that match -/
+theorem C15_tags_production_re (mk it : Nat → Nat) (ms : List MatcherRe) (htf : ∀ m ∈ ms, m.TagFree)
+    (w : List UInt8) (t : Nat) :
+    t ∈ (matcherAutomaton mk it (ms.map MatcherRe.toMatcherNFA)).compile.tagsAfter w ↔
+      ∃ i m, ms[i]? = some m ∧ ReportedRe mk it i m w t := by
+  have hwf : ∀ m ∈ ms.map MatcherRe.toMatcherNFA, WF m.nfa := by
+    intro m hm
+    obtain ⟨m', _, rfl⟩ := List.mem_map.mp hm
+    exact matcherRe_wf m'
+  rw [mem_tagsAfter_iff, matcherAutomaton_tagReach mk it _ hwf]
+  constructor
+  · rintro ⟨i, m, hm, h⟩
+    rw [List.getElem?_map] at hm
+    cases hm' : ms[i]? with
+    | none => simp [hm'] at hm
+    | some m' =>
+      simp [hm'] at hm; subst hm
+      exact ⟨i, m', hm', (reportedRe_iff mk it i m' (htf m' (List.mem_of_getElem? hm')) w t).mp h⟩
+  · rintro ⟨i, m, hm, h⟩
+    exact ⟨i, m.toMatcherNFA, by rw [List.getElem?_map, hm]; rfl,
+      (reportedRe_iff mk it i m (htf m (List.mem_of_getElem? hm)) w t).mpr h⟩
+
+example : ∀ m ∈ [MatcherRe.parsed (.seq [.lit [27, 91], .plus (.pred [(48, 57)]), .lit [82]]),
+    MatcherRe.items [(.lit [27, 91, 65], some 7), (.lit [27, 91, 66], some 8)]], m.TagFree := by
+  intro m hm
+  simp at hm
+  rcases hm with rfl | rfl
+  · exact TagFree.seq (by
+      intro e he; simp at he
+      rcases he with rfl | rfl | rfl
+      · exact TagFree.lit _
+      · exact TagFree.plus (TagFree.pred _)
+      · exact TagFree.lit _)
+  · intro a ha; simp at ha
+    rcases ha with rfl | rfl <;> exact TagFree.lit _
+
+example : (matcherAutomaton (· + 1000) id
+    ([MatcherRe.parsed (.seq [.lit [27, 91], .plus (.pred [(48, 57)]), .lit [82]]),
+      MatcherRe.items [(.lit [27, 91, 65], some 7), (.lit [27, 91, 66], some 8)]].map
+        MatcherRe.toMatcherNFA)).compile.tagsAfter [27, 91, 49, 82] = [1000] := by decide
 
 /-- **Tags.** When the alternatives of a choice carry tags (some may carry none, tags may repeat), the tags
     reported after consuming `w` are exactly the tags of the alternatives that match `w`; the report is a
